@@ -233,8 +233,32 @@ func (f *cellFixture) prepare() error {
 		return err
 	}
 	f.w.ReceivePending(u2)
+	f.w.ReceivePending(u1)
 	if err := f.n.ProduceN(1); err != nil {
 		return err
+	}
+	// liquidity: guardians and the token tuple (the fixture's two tokens share the rewards), each a two-step time challenge
+	lg := []types.Address{g.User1.Address, g.User2.Address, g.User3.Address, g.User4.Address}
+	nominate := definition.ABILiquidity.PackMethodPanic(definition.NominateGuardiansMethodName, lg)
+	f.send(admin, types.LiquidityContract, znn, big.NewInt(0), nominate)
+	if err := f.n.ProduceN(int(constants.MinAdministratorDelay) + 4); err != nil {
+		return err
+	}
+	f.send(admin, types.LiquidityContract, znn, big.NewInt(0), nominate)
+	if err := f.n.ProduceN(2); err != nil {
+		return err
+	}
+	tuple := definition.ABILiquidity.PackMethodPanic(definition.SetTokenTupleMethodName, []string{f.token.String(), f.foreignToken.String()}, []uint32{5000, 5000}, []uint32{5000, 5000}, []*big.Int{big.NewInt(1000), big.NewInt(2000)})
+	f.send(admin, types.LiquidityContract, types.ZeroTokenStandard, big.NewInt(0), tuple)
+	if err := f.n.ProduceN(int(constants.MinSoftDelay) + 4); err != nil {
+		return err
+	}
+	f.send(admin, types.LiquidityContract, types.ZeroTokenStandard, big.NewInt(0), tuple)
+	if err := f.n.ProduceN(2); err != nil {
+		return err
+	}
+	if li, err := definition.GetLiquidityInfo(f.n.Chain.GetFrontierMomentumStore().GetAccountStore(types.LiquidityContract).Storage()); err != nil || len(li.TokenTuples) != 2 {
+		return fmt.Errorf("fixture: the liquidity token tuple is not set (%v)", err)
 	}
 	st := f.n.Chain.GetFrontierMomentumStore().GetAccountStore(types.BridgeContract).Storage()
 	if si, err := definition.GetSecurityInfoVariable(st); err != nil || len(si.Guardians) < constants.MinGuardians {
@@ -312,6 +336,9 @@ func (f *cellFixture) defaultArg(c cellContract, m string, in abi.Argument, call
 	case "int64":
 		if name == "expirationTime" {
 			return f.n.Frontier().Timestamp.Unix() + 300
+		}
+		if c.name == "liquidity" {
+			return constants.StakeTimeMinSec
 		}
 		return constants.StakeTimeUnitSec
 	case "bool":
